@@ -1168,6 +1168,13 @@ func genC19(w *bufio.Writer, r *rng, thorough bool) {
 		k := r.intn(6)
 		for j := 0; j < k; j++ {
 			prog += fmt.Sprintf(";alias:%d", r.intn(n))
+			// repeats are not only trailing: further distinct elements follow a repeated pointer
+			if r.coin(60) {
+				prog += fmt.Sprintf(";c:%d", r.intn(256))
+			}
+			if r.coin(30) {
+				prog += fmt.Sprintf(";dbl:%d", r.intn(n))
+			}
 		}
 		emit(w, "batch %s", prog)
 		if r.coin(50) {
